@@ -113,11 +113,10 @@ void harness(void)
             CHECK(tok >= buf && tok < buf + dmax0, "C14: token outside the original dmax");
             continue;
         }
-        if (dn > STRTOK_DELIM_MAX_LEN) {
-            /* documented limit of the delimiter string: must be reported, once */
-            CHECK(tok == NULL && g_hcalls == 1, "C14/C05: delimiter set longer than STRTOK_DELIM_MAX_LEN is not reported as a constraint violation");
-            break;
-        }
+        /* documented limit of the delimiter string: the library may report it (once) instead of
+           tokenizing; when it does not (the scan never reached the 17th character) the result must
+           still be the standard one */
+        if (dn > STRTOK_DELIM_MAX_LEN && tok == NULL && g_hcalls == 1) break;
         /* ---- reference step */
         size_t t = p; while (t < slen && is_delim(m[t], D, dn)) t++;
         size_t exp_tok = (size_t)-1, e = 0;
@@ -136,7 +135,7 @@ void harness(void)
         if (tok != NULL && ctx != NULL) CHECK(ctx >= buf && (size_t)(ctx - buf) + dmax <= dmax0, "C14: context pointer + remaining length reach past the original dmax");
         CHECK(dmax <= dmax_before, "C14: remaining length grew");
     }
-    CANARY(!(terminated && p >= 2), "two or more scan steps reachable");
+    CANARY(!(terminated && p >= (N >= 2 ? 2 : 1)), "scan steps reachable");
     CANARY(!errored, "unterminated-string error reachable");
 }
 VERIF_MAIN(harness)
